@@ -158,12 +158,39 @@ def run_unit(path, outdir, probe=True, rlimit=None, timeout=600):
     for mod in tm.get("smt", {}).get("smt-run-module-times", []):
         fb.extend(mod.get("function-breakdown", []))
     res["function_breakdown"] = [dict(function=f["function"], ok=f["success"], smt_us=f.get("time-micros", 0), rlimit=f.get("rlimit", 0)) for f in fb if f.get("mode:") == "exec" or f.get("mode:") == "proof"]
-    for d in r["diags"]:
-        c = classify(d, lines)
-        if c is None:
-            continue
-        c["obligation"] = obligation_name(meta["unit"], c)
-        (res["errors"] if c["semantic"] else res["tool_errors"]).append(c)
+    def collect(rr):
+        errs, tools = [], []
+        for d in rr["diags"]:
+            c = classify(d, lines)
+            if c is None:
+                continue
+            c["obligation"] = obligation_name(meta["unit"], c)
+            (errs if c["semantic"] else tools).append(c)
+        return errs, tools
+
+    errs, tools = collect(r)
+    # A failed proof may be solver instability rather than a semantic failure: retry with other Z3 seeds.
+    # An obligation counts as failed only if it fails under every seed (any successful run is a proof).
+    res["seed_retries"] = 0
+    if errs and not tools and not r["timeout"]:
+        for sd in (1, 2):
+            r2 = run_verus(rs, extra + ["--smt-option", f"smt.random_seed={sd}"], timeout)
+            res["seed_retries"] += 1
+            if r2["timeout"] or r2["summary"] is None:
+                continue
+            e2, t2 = collect(r2)
+            if t2:
+                continue
+            names2 = {e["obligation"] for e in e2}
+            errs = [e for e in errs if e["obligation"] in names2]
+            if not errs:
+                r = r2
+                vr = r["summary"].get("verification-results", {})
+                res["verified"] = vr.get("verified", 0)
+                res["verus_errors"] = vr.get("errors", 0)
+                break
+    res["errors"].extend(errs)
+    res["tool_errors"].extend(tools)
     if vr.get("encountered-vir-error") or (not vr and r.get("rc")):
         res["tool_errors"].append(dict(message="verus front-end error", rendered=r["stderr"][-3000:]))
     if res["tool_errors"]:
